@@ -212,3 +212,38 @@ def independent(a, b):
 
 def card(S):
     return len(set(S))
+
+
+def identity(n):
+    import numpy as np
+    return np.eye(int(n))
+
+
+def diag_of(v):
+    import numpy as np
+    return np.diag(np.asarray(v, dtype=float))
+
+
+def is_ndarray(x):
+    import numpy as np
+    return type(x) == np.ndarray
+
+
+def unitri_nonsingular(W):
+    return True
+
+
+def acyclic_if_ranked(A, r):
+    return True
+
+
+def acyclic_if_ordered(A, L):
+    return True
+
+
+def least_exists(P, key):
+    return True
+
+
+def rank(A, x):
+    return 0
